@@ -357,16 +357,24 @@ func runC11(c C11Case, info *kit.Info) *kit.Finding {
 			}
 		}
 	}
+	// a local port may (rarely) be used by two successive connections of one case: count per address
+	perLocal := map[string]int{}
+	for _, cn := range conns {
+		if cn.err == "" {
+			perLocal[cn.local]++
+		}
+	}
 	overlaps := 0
 	for _, cn := range conns {
 		if cn.err != "" {
 			return kit.Violation("reload:service-interrupted", "a client using the retained address and key failed during reloads: %s (connection %s, %v..%v relative to first reload)", cn.err, cn.local, cn.start.Sub(reloads0(reloads, cn.start)), cn.end.Sub(reloads0(reloads, cn.start)))
 		}
 		a := byRemote[cn.local]
-		if a == nil || a.open != 1 || a.closed != 1 {
-			return kit.Violation("reload:not-handled-exactly-once", "connection %s was reported opened %d and closed %d times (want 1 and 1: exactly one generation handles it)", cn.local, ifnil(a).open, ifnil(a).closed)
+		n := perLocal[cn.local]
+		if a == nil || a.open != n || a.closed != n {
+			return kit.Violation("reload:not-handled-exactly-once", "%d connection(s) from %s were reported opened %d and closed %d times (each must be handled by exactly one generation)", n, cn.local, ifnil(a).open, ifnil(a).closed)
 		}
-		if a.auth != 1 || a.key != "shared" {
+		if a.auth != n || a.key != "shared" {
 			return kit.Violation("reload:retained-key-refused", "connection %s with the retained key: %d authentications, key %q, status %s", cn.local, a.auth, a.key, a.status)
 		}
 		for _, sp := range reloads {
